@@ -384,7 +384,7 @@ def may_be_callers_array(fn, v, depth=0):
         return may_be_callers_array(fn, v.value, depth)            # basic slicing: a view
     if isinstance(v, ast.Call):
         f = dotted(v.func) or ''
-        last = f.rsplit('.', 1)[-1]
+        last = v.func.attr if isinstance(v.func, ast.Attribute) else f.rsplit('.', 1)[-1]
         kw = {k.arg: k.value for k in v.keywords}
         if last in _NO_COPY and f.split('.')[0] in ('np', 'numpy') and v.args:
             return may_be_callers_array(fn, v.args[0], depth)
@@ -971,4 +971,234 @@ def never_filled_collections(fn):
                 touched = True                           # any other use (method call, subscript, argument, alias, iteration) may fill or share it
         if returned and not touched:
             out.append((sts[0], name))
+    return out
+
+
+def _presence_only(test):
+    """the test only asks whether fields are set (`not self._x`, `self._x is None`, `not list(self._x)`): a configuration-completeness test"""
+    if isinstance(test, ast.BoolOp):
+        return all(_presence_only(v) for v in test.values)
+    if isinstance(test, ast.UnaryOp) and isinstance(test.op, ast.Not):
+        return _presence_only(test.operand)
+    if isinstance(test, ast.Call) and dotted(test.func) in ('list', 'len', 'bool') and len(test.args) == 1:
+        return _presence_only(test.args[0])
+    if isinstance(test, ast.Compare) and len(test.ops) == 1 and isinstance(test.ops[0], (ast.Is, ast.IsNot)) \
+            and isinstance(test.comparators[0], ast.Constant) and test.comparators[0].value is None:
+        return _presence_only(test.left)
+    return isinstance(test, ast.Attribute) and isinstance(test.value, ast.Name) and test.value.id == 'self'
+
+
+def state_written_before_validation(fn, methods=None):
+    """[(store stmt, field, guard stmt)]: a method other than a constructor assigns `self.<field> = <expression of parameter p>` and a LATER
+    statement of the same or an enclosing block is `if <test of p or of self.<field>>: raise ...`.  When the test fails the caller gets the
+    exception but the object already holds the rejected value (and none of the refresh / notification steps that follow the guard has run):
+    the next operation computes with a state that no accepted call produced.  Constructors are exempt: a raising constructor leaves no object."""
+    if fn.name in ('__init__', '__cinit__', '__setstate__', '__new__'):
+        return []
+    a = fn.args
+    params = {x.arg for x in a.posonlyargs + a.args + a.kwonlyargs} - {'self', 'cls'}
+    if not params:
+        return []
+    out = []
+    methods = methods or {}
+
+    def names(e):
+        return {n.id for n in ast.walk(e) if isinstance(n, ast.Name)}
+
+    def fields(e):
+        return {n.attr for n in ast.walk(e) if isinstance(n, ast.Attribute) and isinstance(n.value, ast.Name) and n.value.id == 'self'
+                and isinstance(n.ctx, ast.Load)}
+
+    def always_raises(body):
+        return bool(body) and isinstance(body[-1], ast.Raise)
+
+    def walk_block(block, written):
+        written = dict(written)
+        for st in block:
+            if isinstance(st, ast.If) and always_raises(st.body) and written:
+                tn, tf = names(st.test) & params, fields(st.test)
+                for fld, (wst, pn) in written.items():
+                    if (tn & pn) or fld in tf:
+                        out.append((wst, fld, st))
+            if isinstance(st, ast.Expr) and isinstance(st.value, ast.Call) and written and not st.value.args and not st.value.keywords:
+                # self._refresh() after the store: a helper that rejects the *computed* state (not a mere "not configured yet" test of a
+                # field's presence) rejects it too late as well
+                d = dotted(st.value.func)
+                m = methods.get(d[5:]) if d and d.startswith('self.') else None
+                if m is not None and m is not fn:
+                    mf = fields(m)
+                    for g in ast.walk(m):
+                        if isinstance(g, ast.If) and always_raises(g.body) and not _presence_only(g.test):
+                            for fld, (wst, pn) in written.items():
+                                if fld in mf:
+                                    out.append((wst, fld, g))
+            if isinstance(st, ast.Assign):
+                for t in st.targets:
+                    if isinstance(t, ast.Attribute) and isinstance(t.value, ast.Name) and t.value.id == 'self':
+                        pn = names(st.value) & params
+                        if pn:
+                            written[t.attr] = (st, pn)
+            if isinstance(st, (ast.FunctionDef, ast.ClassDef)):
+                continue
+            if isinstance(st, ast.Try):
+                # a handler may restore the old value: not decided here
+                continue
+            for f in ('body', 'orelse'):
+                b = getattr(st, f, None)
+                if isinstance(b, list) and b and isinstance(b[0], ast.stmt):
+                    walk_block(b, written)
+    walk_block(fn.body, {})
+    seen, res = set(), []
+    for wst, fld, g in out:
+        if (id(wst), id(g)) not in seen:
+            seen.add((id(wst), id(g)))
+            res.append((wst, fld, g))
+    return res
+
+
+_SWV_EXAMPLE = '''
+class K:
+    def __init__(self, width):
+        self._width = width
+        if width <= 0:
+            raise ValueError('constructor: exempt')
+
+    def late(self, width):
+        self._width = 2 * width
+        if width <= 0:
+            raise ValueError('too late')
+        self._refresh()
+
+    def early(self, width):
+        if width <= 0:
+            raise ValueError('in time')
+        self._width = width
+        self._refresh()
+
+    def other(self, width, name):
+        self._width = width
+        if not name:
+            raise ValueError('unrelated test')
+
+    def through_helper(self, width):
+        self._width = width
+        self._rebuild()
+
+    def through_presence_helper(self, width):
+        self._width = width
+        self._configure()
+
+    def _rebuild(self):
+        if self._width * self._scale > 10:
+            raise ValueError('computed state rejected')
+
+    def _configure(self):
+        if not self._width:
+            raise ValueError('not configured yet')
+'''
+
+
+def selfcheck_generic():
+    """rules with no instance on a clean tree are exercised on a built-in example on every run"""
+    tree = ast.parse(_SWV_EXAMPLE)
+    meths = {f.name: f for f in tree.body[0].body}
+    got = [f.name for f in tree.body[0].body if state_written_before_validation(f, meths)]
+    if got != ['late', 'through_helper']:
+        from ..report import AnalysisError
+        raise AnalysisError('stored-before-validated rule self-check failed: %s' % got)
+
+
+def derived_from_aliased_input(fn):
+    """[(store stmt, local, param, derived stmt)]: a method keeps an array that may be the caller's own object (the parameter, an element of
+    it, a view, or an as-array conversion that does not copy) in the instance AND computes another kept value from it in the same call.
+    The kept array then changes when the caller later writes into its buffer while the value derived from it does not: the object's state is
+    no longer the state any assignment produced.  (Keeping a caller's array alone is not reported: nothing derived goes stale.)"""
+    a = fn.args
+    params = {x.arg for x in a.posonlyargs + a.args + a.kwonlyargs} - {'self', 'cls'}
+    if not params:
+        return []
+    elem_of = {}
+    for n in ast.walk(fn):
+        if isinstance(n, ast.For) and isinstance(n.target, ast.Name) and isinstance(n.iter, ast.Name) and n.iter.id in params:
+            elem_of[n.target.id] = n.iter.id
+
+    def origin(v, depth=0):
+        if depth > 4:
+            return None
+        if isinstance(v, ast.Name) and v.id in params:
+            return v.id
+        if isinstance(v, ast.Call):
+            f = dotted(v.func) or ''
+            last = v.func.attr if isinstance(v.func, ast.Attribute) else f.rsplit('.', 1)[-1]
+            kw = {k.arg: k.value for k in v.keywords}
+            if last in _NO_COPY and v.args:
+                return origin(v.args[0], depth + 1)
+            if last == 'array' and v.args and isinstance(kw.get('copy'), ast.Constant) and kw['copy'].value in (False, None):
+                return origin(v.args[0], depth + 1)
+            if isinstance(v.func, ast.Attribute) and last in ('view', 'reshape', 'ravel', 'squeeze', 'transpose'):
+                return origin(v.func.value, depth + 1)
+            return None
+        if isinstance(v, ast.Attribute) and v.attr in ('T', 'base'):
+            return origin(v.value, depth + 1)
+        if isinstance(v, ast.Name) and v.id in elem_of:
+            return elem_of[v.id]
+        return None
+
+    # locals bound (last binding before use is not tracked: any aliasing binding counts, a copying rebinding clears it)
+    alias = {}
+    order = []
+    for st in ast.walk(fn):
+        if isinstance(st, ast.Assign) and len(st.targets) == 1 and isinstance(st.targets[0], ast.Name):
+            order.append(st)
+    for st in sorted(order, key=lambda s: (s.lineno, s.col_offset)):
+        t = st.targets[0].id
+        # `x = asarray(x)` where x is a loop element: origin of the right-hand side evaluated with x still meaning the element
+        o = origin(st.value)
+        if o:
+            alias[t] = (o, st)
+        elif t in alias or t in elem_of:
+            alias.pop(t, None)
+            elem_of.pop(t, None)
+    for t, p in list(elem_of.items()):
+        alias.setdefault(t, (p, None))
+    if not alias:
+        return []
+    kept_lists = set()
+    for st in ast.walk(fn):
+        if isinstance(st, ast.Assign):
+            for tg in st.targets:
+                if isinstance(tg, ast.Attribute) and isinstance(tg.value, ast.Name) and tg.value.id == 'self':
+                    for n in ast.walk(st.value):
+                        if isinstance(n, ast.Name):
+                            kept_lists.add(n.id)
+    out = []
+
+    def kept(name):
+        """statement through which the local is kept in the instance: self.F = name / L.append(name) with L stored in a field"""
+        for st in ast.walk(fn):
+            if isinstance(st, ast.Assign) and isinstance(st.value, ast.Name) and st.value.id == name:
+                for tg in st.targets:
+                    if isinstance(tg, ast.Attribute) and isinstance(tg.value, ast.Name) and tg.value.id == 'self':
+                        return st
+            if isinstance(st, ast.Expr) and isinstance(st.value, ast.Call) and isinstance(st.value.func, ast.Attribute) \
+                    and st.value.func.attr == 'append' and isinstance(st.value.func.value, ast.Name) and st.value.func.value.id in kept_lists \
+                    and len(st.value.args) == 1 and isinstance(st.value.args[0], ast.Name) and st.value.args[0].id == name:
+                return st
+        return None
+
+    for name, (p, bind) in alias.items():
+        k = kept(name)
+        if k is None:
+            continue
+        # a value computed from the aliased array (arithmetic on it) that is kept as well
+        for st in ast.walk(fn):
+            if not (isinstance(st, ast.Assign) and len(st.targets) == 1):
+                continue
+            if not any(isinstance(b, ast.BinOp) and any(isinstance(x, ast.Name) and x.id == name for x in ast.walk(b)) for b in ast.walk(st.value)):
+                continue
+            tg = st.targets[0]
+            if isinstance(tg, ast.Attribute) and isinstance(tg.value, ast.Name) and tg.value.id == 'self':
+                out.append((k, name, p, st))
+            elif isinstance(tg, ast.Name) and tg.id != name and kept(tg.id) is not None:
+                out.append((k, name, p, st))
     return out
